@@ -161,16 +161,17 @@ PROPS = {
     "C05": {
         "quick_ms": 15000,
         "thorough_ms": 240000,
-        "floors": {"tail.ok": 10000, "tail.dash-tokens": 5000},
+        "floors": {"tail.ok": 10000, "tail.dash-tokens": 5000, "tail.after-values-before-escape": 2500, "tail.dont-delimit-with-delimiter": 500},
         "rule": "conventional commands (options, flags, subcommands incl. flag subcommands, infer_*) whose tail level (root or a subcommand) ends in a "
                 "multi-valued positional `rest` (num_args 0.. / 1.., Set/Append, with/without last(true), with/without a leading single positional, "
                 "String or OsString parser, optional delimiter, dont_delimit_trailing_values) x valid prefixes rendered from intents (any spelling; "
-                "may leave an option with satisfied minimum pending) x tails of 0-5 hostile tokens (--help -h -V --version -- - \"\" help, every defined "
+                "may leave an option with satisfied minimum pending; a third of the time followed by 1-2 values for `rest` given before the `--`) x "
+                "tails of 0-5 hostile tokens (--help -h -V --version -- - \"\" help, delimiter-bearing tokens (`a,b` `,x` `y,` `,` `-Wl,-x`), every defined "
                 "long/short (+=v), clusters, subcommand names/aliases of this and the root level, hostile alphabet incl. non-UTF-8 for OsString, -1). "
                 "Oracle: parse(prefix -- tail) is Ok, `rest` (and the leading positional) hold the tail byte-for-byte in order (split only at a "
-                "declared delimiter), no subcommand dispatched, no help/version, and every option/flag observation equals that of parse(prefix).",
+                "declared delimiter, and not at all under dont_delimit_trailing_values), no subcommand dispatched, no help/version, and every option/flag observation equals that of parse(prefix).",
         "assumptions": COMMON_ASSUME + ["premise 'able to absorb': the prefix itself parses; positionals are untyped (String/OsString); no value terminator on the tail positional",
-                                        "with dont_delimit_trailing_values + delimiter the split of individual tokens is not judged"],
+                                        ],
         "technique": "metamorphic + reference-model runtime monitor: parse(prefix) vs parse(prefix -- tail), tail conservation byte-for-byte",
         "level_text": "Two executions per case are compared (non-interference) and the tail is checked for exact conservation; ~10^6 cases per quick run.",
         "level_note": "Trusted: the distribution rule of tail tokens over positionals (last => all to it; else index order).",
@@ -179,13 +180,16 @@ PROPS = {
         "quick_ms": 15000,
         "thorough_ms": 240000,
         "floors": {"lattice.Cli": 10000, "lattice.Env": 5000, "lattice.Default": 5000, "lattice.absent": 2500, "lattice.default_if_fired": 1000,
-                   "lattice.default_if_unset": 150, "lattice.default_missing_used": 1000, "verdict.err-as-expected": 1500},
+                   "lattice.default_if_unset": 150, "lattice.default_missing_used": 1000, "verdict.err-as-expected": 1500,
+                   "lattice.group.Some(Cli)": 2000, "lattice.group.Some(Env)": 500, "lattice.group.None": 1000, "lattice.group-conflict": 500},
         "rule": "2-5 arguments each drawing a subset of {default_value(s), default_value_if(s) (IsPresent/Equals, Some/None default) on a plain "
                 "option, default_missing + num_args(0..=1) (+ require_equals), env (set/unset, delimiter-split), flags with env true/false} plus one "
-                "conflict, one requires and arg_required_else_help chosen so that only a *defaulted* argument could trigger them; x environments x argv "
+                "conflict, one requires, one override pair and arg_required_else_help chosen so that only a *defaulted* argument could trigger them, and "
+                "(half of the time) a multiple group over some of the arguments with, sometimes, an outside argument conflicting with the group id; x environments x argv "
                 "(each argument absent / with value(s) / without value). Oracle: lattice model cli > env > first matching default-if > default > "
                 "absent for (value_source, raw occurrences / flag value), default_missing exactly when present without value, verdict "
-                "Ok / ArgumentConflict / MissingRequiredArgument / help-on-missing computed from *explicit* presence only, args_present().",
+                "Ok / ArgumentConflict / MissingRequiredArgument / help-on-missing computed from *explicit* presence only, args_present(); the group is "
+                "present (contains_id, value_source = strongest source, member ids) exactly through its explicitly supplied members.",
         "assumptions": COMMON_ASSUME + ["default_value_if conditions refer only to arguments without (conditional) defaults of their own (otherwise the outcome depends on definition order, which the property does not fix)",
                                         "the process environment is private to the shard process; variables are set before the Command is built"],
         "technique": "reference-model monitor: precedence-lattice model over the product of sources, with injected environments",
@@ -269,15 +273,17 @@ PROPS = {
         "thorough_ms": 300000,
         "floors": {"render.ok": 10000, "render.width-sweep": 10000, "helpflag.rendered": 10000, "helpflag.level-checked": 5000, "visible.checked": 25000,
                    "visible.checked-short-only": 1500, "hidden.arg-checked": 1500, "hidden.subcommand-checked": 1500, "hidden.possible-value-checked": 150,
-                   "visible.possible-value-checked": 500, "stratum.sparse-sections": 1000, "helpsub.rendered": 1000},
+                   "visible.possible-value-checked": 500, "stratum.sparse-sections": 1000, "helpsub.rendered": 1000,
+                   "hidden.custom-template-pages": 2500, "hidden.mode-hidden-option-checked": 1500},
         "rule": "wild command trees (depth <= 2; any mix of short-only/long-only flags, counts, options with value names, positionals, headings, "
                 "display orders, hidden/hide_short_help/hide_long_help/next_line_help items, possible values with hidden ones, aliases, defaults, "
                 "groups, relations, all command settings incl. flatten_help/next_line_help/hide_possible_values, benign or hostile text, custom "
                 "templates 1/8, a sparse-section stratum with disable_help_flag + 1-2 args) whose displayed names are unique markers x term widths "
                 "0..200 (+ width sweep: 4 random widths per tree; all 201 for 1/10 of the trees in thorough). Oracle: render_help / render_long_help "
                 "/ render_usage / `-h` / `--help` at every level / `help <sub>` never panic; no run of > 400 spaces, output <= 64 KiB + 6 x text x "
-                "nodes; default template: marker of every item visible in that mode present, marker of hidden subcommands, hidden possible values and "
-                "hidden arguments that no rule can make required absent from help and usage; the usage line of `path… -h` names that level.",
+                "nodes; default template: marker of every item visible in that mode present; every template (default or custom {options}/{positionals}/"
+                "{subcommands}/{all-args}): marker of hidden subcommands, hidden possible values, hidden arguments that no rule can make required, "
+                "and of options hidden for the rendered mode only (hide_short_help / hide_long_help), absent from help and usage; the usage line of `path… -h` names that level.",
         "assumptions": COMMON_ASSUME + ["a hidden argument is 'optional' only if no rule could make it required (required, required_if/unless, named in some requires, member of a required group with a visible alternative is still checked)",
                                         "a required group whose members are all hidden legitimately names them"],
         "technique": "runtime totality monitor + marker-set invariant (mention/omission) on rendered help and usage across widths",
@@ -288,7 +294,7 @@ PROPS = {
         "quick_ms": 15000,
         "thorough_ms": 240000,
         "floors": {"pages.rendered": 25000, "control.pages-compared": 10000, "visible.arg-checked": 15000, "hidden.arg-checked": 1500,
-                   "visible.subcommand-checked": 2500, "hidden.subcommand-checked": 500},
+                   "visible.subcommand-checked": 2500, "hidden.subcommand-checked": 500, "arg-checked.short-only": 1500},
         "rule": "wild command trees (depth <= 2, marker names as in C12, env, defaults, headings, possible values with help, versions, authors) in two "
                 "variants with identical structure and identical line structure of every text slot: benign words vs adversarial lines (each "
                 "starting with one of . ' \\ - \" .SH 'br \\fB .\\\" .. followed by hostile fragments: quotes, backslashes, $(), backticks, "
@@ -329,20 +335,21 @@ PROPS = {
         "quick_ms": 30000,
         "thorough_ms": 300000,
         "floors": {"generated.bash": 500, "generated.zsh": 500, "generated.fish": 500, "generated.powershell": 500, "generated.elvish": 500,
-                   "generated.nushell": 500, "mention.checked": 25000, "bash.syntax-ok": 500, "bash.queries": 10000},
+                   "generated.nushell": 500, "mention.checked": 25000, "mention.short-checked": 10000, "bash.syntax-ok": 500, "bash.queries": 10000},
         "rule": "wild command trees (depth <= 2, marker names incl. hyphenated / underscored / rarely `__` subcommand names, aliases, flag subcommands, "
                 "value hints, possible values incl. hidden, hidden args/subcommands, globals, groups/relations, benign or hostile text) x the six "
                 "generators: no panic, two generations byte-identical, every non-hidden long / visible long alias / non-hidden possible value / "
-                "subcommand name / visible subcommand alias of every level the format supports (fish: two) occurs in the script; the bash script "
+                "subcommand name / visible subcommand alias of every level the format supports (fish: two) occurs in the script, and per short character the script holds at least as many option "
+                "entries spelling it (in the shell's entry format) as there are visible (level, argument) pairs with that short or visible short alias; the bash script "
                 "passes `bash -n` and its function is executed in bash (one process per script) on COMP_WORDS = path + partial for every path and "
                 "partials {\"\", -, --, --<1-4 chars of each long>, strict prefix of each subcommand}: a dash word yields only switches defined at "
                 "that level (incl. inherited globals, help/version) that extend it and all visible longs extending it; a bare word yields all "
                 "matching subcommand names/visible aliases and nothing that is not a name, switch, positional possible value or placeholder.",
         "assumptions": COMMON_ASSUME + ["only bash is installed: 'works in the shell' is decided for bash only; the other five are judged on mentions, determinism and totality",
-                                        "mention = the unique marker occurs anywhere in the script (markers are unique per level)"],
+                                        "mention = the unique marker occurs anywhere in the script (markers are unique per level); shorts are counted per character over the whole script (a lower bound: globals and hidden arguments may add entries)"],
         "technique": "runtime totality/determinism monitor + mention-coverage invariant + executed-bash differential oracle (COMPREPLY vs definition)",
         "level_text": "Every generator run is monitored; the bash script is additionally executed on enumerated completion queries and COMPREPLY compared with the command definition.",
-        "level_note": "Known format gaps (F4, F10, F26, F27) are keyed by (generator, item class); any other missing mention is a fresh violation.",
+        "level_note": "Known format gaps (F4, F10, F26, F27, F28, F29) are keyed by (generator, item class); any other missing mention is a fresh violation.",
     },
     "C17": {
         "quick_ms": 25000,
@@ -370,13 +377,13 @@ PROPS = {
         "rule": "corpus of 10 derived Parser types (+ Args, 3 Subcommand enums, 1 ValueEnum) spanning bool / SetFalse bool / counter / T / Option<T> / "
                 "Option<Option<T>> / Vec<T> / Option<Vec<T>> / delimited Vec / fixed-arity Vec / last Vec / positionals / default_value_t / "
                 "default_values_t / default_missing_value / env / rename_all / flatten / global / optional, required, nested and external subcommands / "
-                "value_enum with aliases, renamed and skipped variants. Per type: random values are printed to argv and parsed back (round trip); "
+                "value_enum with aliases, renamed, hidden and skipped variants. Per type: random values are printed to argv and parsed back (round trip); "
                 "the printed line and 3 mutations of it (token dropped/duplicated/swapped/suffixed, --bogus, -h, --, empty, overflow) are parsed by "
                 "T::try_parse_from and by T::command() + a hand-written extractor (by shape, builder API only): Ok/Err and error kind must agree, "
                 "values must be equal, FromArgMatches on the command's matches too; update frame: x.try_update_from(argv naming a random "
                 "subset of another value's fields) must set exactly the named fields, for flat types and for Option<Subcommand> / Subcommand fields "
                 "(same variant named: named variant fields replaced and the others kept; other variant or nothing held: the value on the line; no "
-                "subcommand named: field kept); ValueEnum: every name/alias maps back (both ignore_case "
+                "subcommand named: field kept); ValueEnum: every name/alias (hidden variants included) maps back and is accepted by the derived argument parser (both ignore_case "
                 "settings, upper-cased), no duplicates, skipped variant unreachable.",
         "assumptions": COMMON_ASSUME + ["Vec<Vec<T>> fields need clap's unstable-v5 feature, which would change clap for every monitor: that one shape is not in the corpus",
                                         "the corpus is fixed at compile time: a change in clap_derive is picked up by recompiling the harness (the check always rebuilds)"],
